@@ -281,8 +281,18 @@ def r3_location_codes(idx, r):
     for b in pchain:
         t = norm(b.test)
         mt = re.fullmatch(r"type\(loc\) is (\S+)|loc\.__class__ is (\S+)|loc is None", t)
+        if not mt and isinstance(b.test, ast.BoolOp) and isinstance(b.test.op, ast.And):
+            # a class test narrowed by further conditions: still a branch for that class
+            for part in b.test.values:
+                mt = re.fullmatch(r"type\(loc\) is (\S+)|loc\.__class__ is (\S+)|loc is None", norm(part))
+                if mt:
+                    t = norm(part)
+                    break
         if not mt:
             raise AnalysisError(f"pack test `{t}` outside fragment")
+        relabel = [x for x in b.body if isinstance(x, ast.Assign) and any(norm(tg) == "locationType" for tg in x.targets)]
+        r.require(not relabel, f"pack-branch-keeps-the-code-of-its-class:{norm(b.test)[:50]}", pk, node=relabel[0] if relabel else None,
+                  msg=f"the branch for `{norm(b.test)[:60]}` stores the locator under another code (`{norm(relabel[0]) if relabel else ''}`): it is read back as a locator of another class")
         cls = (mt.group(1) or mt.group(2)) if t != "loc is None" else "type(None)"
         r.require(cls in code_of, f"pack-branch-has-code:{cls}", pk, node=b.test, msg=f"_packLocationsV3 handles {cls} but LOCATION_TYPE_LABELS has no code for it")
         if cls not in code_of:
@@ -822,6 +832,47 @@ def r_borrowed_r04_18(idx, r):
     r3_keepset(idx, Only(r, ["Parameter.restoreBackup:keep-set"]))
 
 
+def to_write_rule(idx, r):
+    """shared with C05 (R05.19): which parameters a snapshot holds is decided by ParameterDefinitionCollection.toWriteToDB; its filter is
+    EVALUATED (MiniEval) for every assigned word 0..7 and every mask 1..7: a parameter marked for saving is written when its assigned word
+    OVERLAPS the mask.  Requiring all bits of the mask drops nearly every parameter as soon as one since-bit has been cleared."""
+    from ..minieval import MiniEval
+    f = idx.method("armi.reactor.parameters.parameterDefinitions.ParameterDefinitionCollection", "toWriteToDB")
+    comp = next((x for x in ast.walk(f.node) if isinstance(x, (ast.ListComp, ast.GeneratorExp)) and x.generators[0].ifs), None)
+    if comp is None:
+        raise AnchorMissing("toWriteToDB: the filtering comprehension")
+    v = norm(comp.generators[0].target)
+    bad = []
+    for save in (True, False):
+        for a in range(8):
+            for m in range(1, 8):
+                env = {f"{v}.saveToDB": save, f"{v}.assigned": a, "mask": m}
+                got = all(MiniEval._truth(MiniEval()._ev(c, dict(env))) for c in comp.generators[0].ifs)
+                if got != (save and bool(a & m)):
+                    bad.append((save, a, m, got))
+    r.require(not bad, "toWriteToDB:written-iff-saved-and-assigned-within-the-mask", f, node=comp,
+              msg=f"(saveToDB, assigned, mask, selected) = {bad[:4]}: assigned parameters are left out of the snapshot and read back as their defaults")
+
+
+def r19_codes_symmetry_and_selection(idx, r):
+    """(a) the selection of parameters to write (to_write_rule).  (b) Grid.symmetry's setter stores the full symmetry string - domain, boundary
+    and the through-centre marker - for every non-empty input: a string cut down to the domain loses `through center`, and a Cartesian core
+    rebuilt from the database classifies its axis cells differently."""
+    to_write_rule(idx, r)
+    g = idx.cls("armi.reactor.grids.grid.Grid")
+    f = next((m_ for m_ in idx.module("armi.reactor.grids.grid").all_funcs() if m_.cls is g and m_.name == "symmetry" and len(m_.params()) == 2), None)
+    if f is None:
+        raise AnchorMissing("Grid.symmetry setter")
+    sts = [s_ for s_ in iter_stores(f.node) if s_.chain == "self._symmetry" and s_.value is not None]
+    if not sts:
+        raise AnchorMissing("Grid.symmetry setter: self._symmetry = ...")
+    env = single_assign_env(f.node)
+    for s_ in sts:
+        v = norm(propagate(s_.value, env))
+        r.require(v in ("''", '""') or (v.startswith("str(") and ".domain" not in v and "fromAny" in v), "Grid.symmetry:full-string-stored", f, node=s_.stmt,
+                  msg=f"`{norm(s_.stmt)}` does not store the complete symmetry string: boundary condition / through-centre marker are lost when a grid is rebuilt from stored parameters")
+
+
 def run(idx, chk):
     chk.explanation = (
         "C04: Layout.writeToDB/_readLayout, _createLayout/_initComps/_compose, _packLocationsV3/_unpackLocationsV2, "
@@ -868,3 +919,5 @@ def run(idx, chk):
                  necessary="every parameter of the loaded reactor equals the written one")
     chk.run_rule("R04.18", "clauses of C05/C16 the round trip of a reactor rests on: None sentinels per dtype (R05.2), bounded flag-bit remapping (R05.10), restoreBackup honours ", lambda r: r_borrowed_r04_18(idx, r), floor=3,
                  necessary="the loaded state equals the written one, None and flags included")
+    chk.run_rule("R04.19", "a parameter is written iff saved and assigned within the mask (evaluated); the grid stores its full symmetry string", lambda r: r19_codes_symmetry_and_selection(idx, r), floor=2,
+                 necessary="every assigned parameter and the grid symmetry of the loaded reactor equal the written ones")
